@@ -13,8 +13,12 @@ PROPS["C12"] = {
     "groups": [
         {"pkg": "input", "hdir": "input", "specs": [
             _c12("tcp/plain/L<=3,zero-reads<=1", "VerifC12Plain", {"L": "3", "zeros": "1"}),
-            _c12("tcp/plain/L<=4", "VerifC12Plain", {"L": "4", "zeros": "0"}),
+        ]},
+        {"pkg": "input", "hdir": "input", "specs": [
             _c12("tcp/conn/L<=3", "VerifC12Conn", {"L": "3", "zeros": "0"}),
+        ]},
+        {"pkg": "input", "hdir": "input", "specs": [
+            _c12("tcp/plain/L<=4", "VerifC12Plain", {"L": "4", "zeros": "0"}),
         ]},
         {"pkg": "input", "hdir": "input", "specs": [
             _c12("udp/L<=4", "VerifC12UDP", {"L": "4"}),
